@@ -12,11 +12,19 @@ def build(P):
     H.setup(P)
     P.reg.externals.insert(0, [e for e in P.reg.externals if e[0] == "self.task_dispatcher.handle_sfn_response"][-1]) if False else None
     H.add_handlers(P, ("C15",))
+    D.externals(P.reg)
+    D.launch_externals(P.reg)
+    R.abstract_arn(P.reg)
+    P.verify(D.ET + "asl_service_states_startExecution", D.start_execution_launch_contract(), tags=("C15",), timeout=30)
+    from contracts import api as A
+    for c in (A.send_task_success_api(), A.send_task_failure_api()):
+        P.verify(c.key, c, tags=("C15",), timeout=30, obl_prefix="asyncio." + c.key.split(".")[-1])
     P.native("child-executions", "natives.c15:children", kind="bounded", clause="C15:",
              bound="7 cases on the real engine + task dispatcher: .sync:2 / .sync / startExecution with a succeeding child, a failing "
                    "child, unknown machine, .sync from an EXPRESS parent, startSyncExecution of a STANDARD child (FIFO schedule)")
     P.explanation = ("Deductive: end_execution calls handle_sfn_response with the execution ARN and the final record exactly once on "
                      "every terminal path, before the status notification. Result shape (documented field names, Output as JSON vs "
                      "string), failure mapping and the invalid combinations: bounded stand-in on the real code.")
-    P.not_decided = ["task-token callbacks (SendTaskSuccess / SendTaskFailure through the REST layer) are not yet under a check",
+    P.not_decided = ["token matching inside handle_rpcmessage_response (which pending task a callback message completes) is covered only as "
+                     "far as the correlation id carried by the message; InvalidToken for a well-formed but unknown token is not decided",
                      "timing of child completion relative to parent events across a real broker"]
